@@ -288,6 +288,74 @@ def elide_drop_flags(fj, taken):
     return n
 
 
+def fold_single_assignment_constants(fj, taken):
+    """Sparse constant propagation for locals that are assigned exactly once in
+    the whole body (compiler temporaries, parameters of spliced-in helpers): a
+    constant, an enum value built in place, or a copy / negation /
+    discriminant of such a local has the same value wherever it is read, so a
+    switch on it is folded without cloning anything (and across source-level
+    calls, which path-cloning jump threading does not cross)."""
+    body = fj["body"]
+    blocks = body["blocks"]
+    ndefs = {}
+    defstmt = {}
+    for b in blocks:
+        for st in b["stmts"]:
+            if st.get("k") == "assign":
+                l = st["pl"]["l"]
+                ndefs[l] = ndefs.get(l, 0) + 1
+                if not st["pl"]["p"]:
+                    defstmt[l] = st
+                else:
+                    ndefs[l] += 1  # partial writes disqualify
+        t = b["term"]
+        d = t.get("dest") if t["k"] in ("call", "tailcall") else None
+        if d is not None:
+            ndefs[d["l"]] = ndefs.get(d["l"], 0) + 2
+    known = {}
+    changed = True
+    rounds = 0
+    while changed and rounds < 10:
+        changed = False
+        rounds += 1
+        for l, st in defstmt.items():
+            if l in known or ndefs.get(l) != 1 or l in taken or l <= body["arg_count"]:
+                continue
+            rv = st["rv"]
+            k = rv.get("rv")
+            val = None
+            if k == "use" and _const_int(rv["op"]) is not None:
+                val = ("c", _const_int(rv["op"]))
+            elif k == "aggregate" and rv.get("agg") == "adt" and rv.get("adt") and rv.get("variant") is not None:
+                val = "%s::%s" % (rv["adt"], rv["variant"])
+            elif k == "use" and _plain_local(rv["op"]) and rv["op"]["pl"]["l"] in known:
+                val = known[rv["op"]["pl"]["l"]]
+            elif k == "unop" and rv.get("op") == "Not" and _plain_local(rv["a"]) and isinstance(known.get(rv["a"]["pl"]["l"]), tuple) and known[rv["a"]["pl"]["l"]][0] == "c":
+                val = ("c", 0 if known[rv["a"]["pl"]["l"]][1] else 1)
+            elif k == "discr" and not rv["pl"]["p"] and isinstance(known.get(rv["pl"]["l"]), str) and rv.get("variants"):
+                for vv, nm in rv["variants"]:
+                    if "%s::%s" % (rv.get("adt"), nm) == known[rv["pl"]["l"]]:
+                        val = ("c", vv)
+            if val is not None:
+                known[l] = val
+                changed = True
+    n = 0
+    for b in blocks:
+        t = b["term"]
+        if t["k"] != "switch" or b["cleanup"] or not _plain_local(t["discr"]):
+            continue
+        v = known.get(t["discr"]["pl"]["l"])
+        if not (isinstance(v, tuple) and v[0] == "c"):
+            continue
+        tgt = t["otherwise"]
+        for vv, tb in t["targets"]:
+            if vv == v[1]:
+                tgt = tb
+        b["term"] = {"k": "goto", "target": tgt, "sp": t.get("sp"), "exp": True, "folded": True}
+        n += 1
+    return n
+
+
 def thread_fn(fj):
     """rewrite fj["body"]["blocks"] in place; returns number of folded switches"""
     body = fj["body"]
@@ -297,6 +365,7 @@ def thread_fn(fj):
         return 0
     taken = _address_taken(blocks)
     elide_drop_flags(fj, taken)
+    fold_single_assignment_constants(fj, taken)
     ok_locals = {i for i in range(len(body["locals"])) if i not in taken and i > body["arg_count"]}
     live_in = _liveness(blocks)
 
